@@ -8,6 +8,8 @@ from __future__ import annotations
 
 import asyncio
 import contextlib
+import copy
+import math
 import hashlib
 import io
 import os
@@ -205,7 +207,10 @@ def gen_plan(rng, idx, big=False):
             for p in rng.sample(sorted(files), min(len(files), rng.choice([1, 1, 2]))):
                 sz = files[p]['size']
                 late[p] = ['append', rng.choice([1, 7, 1000, 2000])] if sz == 0 or rng.random() < 0.6 else ['truncate', rng.choice([1, sz // 2 + 1, sz])]
-        snaps.append({'user': user, 'ts': instants[i], 'note': rng.choice(NOTES), 'files': files, 'late': late})
+        # a share of the snapshots is re-recorded in the metadata format of replicat < 1.3 (st_atime / st_mtime /
+        # st_ctime in seconds, float or int, no *_ns keys), mixed with current-format ones
+        legacy = rng.choice(['float', 'float', 'int']) if rng.random() < 0.25 else None
+        snaps.append({'user': user, 'ts': instants[i], 'note': rng.choice(NOTES), 'files': files, 'late': late, 'legacy': legacy})
     plan['snapshots'] = snaps
     queries = []
 
@@ -263,6 +268,28 @@ def unit_of(nbytes):
 
 def fmt_ns(ns):
     return (datetime(1970, 1, 1) + timedelta(seconds=ns // 10 ** 9)).isoformat(sep=' ')
+
+
+def time_cell(f, what):
+    """expected ACCESSED/MODIFIED/CREATED AT text of a file from the values its snapshot records (nanosecond
+    keys, or seconds in the pre-1.3 format); None when the value is within a microsecond of the next
+    second (the conversion through a double may then round up - not a selection matter)"""
+    key = {'atime': 'st_atime', 'mtime': 'st_mtime', 'ctime': 'st_ctime'}[what]
+    meta = f['meta']
+    if key + '_ns' in meta:
+        ns = f['mtime_ns'] if what == 'mtime' else meta[key + '_ns']
+        if ns % 10 ** 9 > 999_999_000:
+            return None
+        return fmt_ns(ns)
+    v = meta[key]
+    if v - math.floor(v) > 0.999999:
+        return None
+    return fmt_ns(int(math.floor(v)) * 10 ** 9)
+
+
+def same_version(got, f):
+    """restored (content, mtime_ns) is the version f"""
+    return got is not None and got[0] == f['content'] and abs(got[1] - f['mtime_ns']) <= f.get('mtime_tol', 0)
 
 
 # --------------------------------------------------------------------------- running the real commands
@@ -365,6 +392,24 @@ class Exec:
         res = await asyncio.wait_for(r.snapshot(paths=[src], note=spec['note']), CMD_TIMEOUT)
         if self.script:
             raise RuntimeError('snapshot() did not read the clock through datetime.utcnow()')
+        name, tag, location, sdata = res.name, res.tag, res.location, res.data
+        style = spec.get('legacy')
+        if style:
+            # the same snapshot (chunks, files, ranges, digests, timestamp) as an older client recorded it,
+            # written through the repository's own serialisation / encryption / naming
+            sdata = copy.deepcopy(res.data)
+            for fd in sdata['files']:
+                m = dict(fd['metadata'])
+                for k in ('st_atime', 'st_mtime', 'st_ctime'):
+                    ns = m.pop(k + '_ns')
+                    m[k] = ns // 10 ** 9 if style == 'int' else ns / 1e9
+                fd['metadata'] = m
+            blob = r._encrypt_snapshot_body({'chunks': list(res.chunks), 'data': sdata})
+            name, tag = r._snapshot_digest_to_location_parts(r.props.hash_digest(blob))
+            location = r.get_snapshot_location(name=name, tag=tag)
+            self.backend.upload(location, blob)
+            self.backend.delete(res.location)
+        res = type('Snap', (), {'name': name, 'tag': tag, 'location': location, 'data': sdata})
         sid = i + 1
         files = []
         for j, fd in enumerate(res.data['files']):
@@ -372,8 +417,15 @@ class Exec:
             if sum(c['range'][1] - c['range'][0] for c in fd['chunks']) != len(data):
                 self.viol('ranges_not_content', f'the chunk ranges recorded for {fd["path"][-20:]!r} add up to '
                           f'{sum(c["range"][1] - c["range"][0] for c in fd["chunks"])}, {len(data)} bytes were read')
+            # what restore must set: the recorded value (whole seconds for the int flavour; the float flavour
+            # goes through a double, allow a microsecond)
+            tol = 0
+            if style == 'int':
+                mt = mt // 10 ** 9 * 10 ** 9
+            elif style == 'float':
+                tol = 1000
             files.append({'path': fd['path'], 'fid': sid * 100 + j, 'ranges': [list(c['range']) for c in fd['chunks']],
-                          'content': data, 'mtime_ns': mt, 'meta': dict(fd['metadata']), 'digest': fd['digest']})
+                          'content': data, 'mtime_ns': mt, 'mtime_tol': tol, 'meta': dict(fd['metadata']), 'digest': fd['digest']})
         rec = {'sid': sid, 'user': spec['user'], 'name': res.name, 'tag': res.tag, 'location': res.location,
                'ts_str': res.data['utc_timestamp'], 'ts': spec['ts'], 'dt': datetime(*spec['ts']), 'note': spec['note'], 'files': files}
         self.recs.append(rec)
@@ -645,12 +697,7 @@ def render_cell(ex, cell):
         f = next(f for r in ex.recs for f in r['files'] if f['fid'] == ident)
         if what == 'digest':
             return hashlib.blake2b(f['content'], digest_size=ex.plan['hash_length']).hexdigest()
-        if what == 'mtime':
-            return fmt_ns(f['mtime_ns'])
-        ns = f['meta'][{'atime': 'st_atime_ns', 'ctime': 'st_ctime_ns'}[what]]
-        if ns % 10 ** 9 > 999_999_000:
-            return None          # float(ns / 1e9) may round into the next second; not a selection matter
-        return fmt_ns(ns)
+        return time_cell(f, what)
     raise ValueError(cell)
 
 
@@ -718,9 +765,11 @@ def oracle(ex, ob, rep):
         for p, (_, f, r) in sorted(want.items()):
             if p not in tree:
                 ex.viol('restore_missing', f'restore did not write {p[-24:]!r} (newest matching snapshot {r["name"][:8]})', q)
-            elif tree[p] != (f['content'], f['mtime_ns']):
-                older = [x for x in cands for g in x['files'] if g['path'] == p and (g['content'], g['mtime_ns']) == tree[p]]
-                ex.viol('restore_wrong_version', f'{p[-24:]!r} restored from {older[0]["ts_str"] if older else "an unknown version"}, '
+            elif not same_version(tree[p], f):
+                older = [x for x in cands for g in x['files'] if g['path'] == p and same_version(tree[p], g)]
+                ex.viol('restore_wrong_version' if older or tree[p][0] != f['content'] else 'restore_wrong_mtime',
+                        (f'{p[-24:]!r} restored with mtime {tree[p][1]}, the snapshot records {f["mtime_ns"]} (+-{f.get("mtime_tol", 0)}ns); ' if not older and tree[p][0] == f['content'] else '') +
+                        f'{p[-24:]!r} restored from {older[0]["ts_str"] if older else "an unknown version"}, '
                         f'the newest matching snapshot containing it is {r["ts_str"]}', q)
     elif op in ('ls', 'lf'):
         cols = q['cols'] if q['cols'] is not None else (SDEFAULT if op == 'ls' else FDEFAULT)
@@ -789,8 +838,11 @@ def oracle(ex, ob, rep):
                             ex.viol('lf_size', f'SIZE of {f["path"][-20:]!r} printed {row[col["size"]]!r}, the file has {n} bytes', q)
                         if 'digest' in col and row[col['digest']] != hashlib.blake2b(f['content'], digest_size=ex.plan['hash_length']).hexdigest():
                             ex.viol('lf_digest', f'DIGEST of {f["path"][-20:]!r} is not the digest of its content', q)
-                        if 'mtime' in col and row[col['mtime']] != fmt_ns(f['mtime_ns']):
-                            ex.viol('lf_mtime', f'MODIFIED AT of {f["path"][-20:]!r} printed {row[col["mtime"]]!r}, expected {fmt_ns(f["mtime_ns"])!r}', q)
+                        for what, label in (('mtime', 'MODIFIED AT'), ('atime', 'ACCESSED AT'), ('ctime', 'CREATED AT')):
+                            want_t = time_cell(f, what) if what in col else None
+                            if want_t is not None and row[col[what]] != want_t:
+                                fmtname = 'pre-1.3 seconds' if 'st_mtime' in f['meta'] else 'nanoseconds'
+                                ex.viol('lf_' + what, f'{label} of {f["path"][-20:]!r} printed {row[col[what]]!r}, the snapshot records {want_t!r} ({fmtname} format)', q)
                         if 'snapshot_date' in col and row[col['snapshot_date']] != fmt_dt(r['ts'][:6] + [0]):
                             ex.viol('lf_date', f'SNAPSHOT DATE printed {row[col["snapshot_date"]]!r} for a snapshot taken at {r["ts_str"]}', q)
     elif op == 'delete' and 'names' in ob:
@@ -831,9 +883,9 @@ def compare(ex, values, rep: Report):
             if mpaths != ob['files']:
                 msg = f'restore selection differs: model {[p[-12:] for p in mpaths]} implementation {[p[-12:] for p in ob["files"]]}'
             else:
-                want = {fid_path[i]['path']: (fid_path[i]['content'], fid_path[i]['mtime_ns']) for i in m}
-                if want != ob['tree']:
-                    bad = [p for p in set(want) | set(ob['tree']) if want.get(p) != ob['tree'].get(p)]
+                want = {fid_path[i]['path']: fid_path[i] for i in m}
+                bad = [p for p in set(want) | set(ob['tree']) if p not in want or not same_version(ob['tree'].get(p), want[p])]
+                if bad:
                     msg = f'restored tree differs from the model\'s selection at {[p[-16:] for p in sorted(bad)[:3]]}'
         elif q['op'] == 'ls':
             msg = compare_listing(ex, ob, m, rep, SLABEL, SDEFAULT, True)
@@ -900,7 +952,7 @@ def probe_regex_combination(scratch: Path, rep: Report):
 
 # --------------------------------------------------------------------------- the check
 RULE = ('case = one history: 2-8 snapshots by up to 3 users (own / same family other key / other family) of an evolving tree '
-        '(paths appear, change, keep content with a new mtime, disappear; some files appended to / truncated between being read and being stat-ed) at scripted pairwise distinct utcnow() instants '
+        '(paths appear, change, keep content with a new mtime, disappear; some files appended to / truncated between being read and being stat-ed; a quarter of the snapshots re-recorded in the pre-1.3 seconds metadata format) at scripted pairwise distinct utcnow() instants '
         '(same second different microseconds incl. 0, second...year roll-overs, years 1..9999, not in chronological order; one history in six under a daylight-saving TZ with readings in the skipped / repeated hour), '
         'then restore / list-snapshots / list-files queries with 0-2 snapshot and file patterns each and every kind of column '
         'selection, refused deletes, a delete by printed names, and the queries again; non-trivial = at least two readable '
@@ -929,6 +981,7 @@ def check_plans(plans, scratch: Path, rep: Report, with_model=True):
         rep.count(f'snapshots={len(plan["snapshots"])}')
         rep.count('tz=' + (plan.get('tz') or 'unset').split(',')[0])
         for s in plan['snapshots']:
+            rep.count('metadata=' + (('pre-1.3 ' + s['legacy']) if s.get('legacy') else 'ns'))
             for how, _ in s.get('late', {}).values():
                 rep.count('late_write=' + how)
             rep.count('by=' + s['user'])
